@@ -159,7 +159,7 @@ CLAIMED['C02'] = dict(
          'the quotation of a datagram with another protocol, (UDP/TCP) another destination address or fixed port, a missing Dublin marker, or (ICMP) another non-zero identifier is never accepted. '
          'Correspondence: real Channel<SimSocket>::recv_probe + real strategy functions (hooks) on responses built by an independent Rust encoder, every sequence 0..65534 of every cell in the thorough tier; the bytes the real dispatch emits are compared with the probe constructors.',
     note='trusted: Coq kernel; hand-written models Net/Recv4.v, Recv6.v, Recv.v, RecvCommon.v (after the repairs C04_fix_3, C04_fix_4 and 26a6dc2, 62af4cc) and model A (validate / strategy_resp / probe_data), tied to the code by differential execution; spec Net/RfcPeer.v is independent of the code; no axioms. '
-         'Known finding F15 (not repaired): for ICMP the quoted destination address is not checked - a quoted echo request to another host carrying this tracer\'s identifier is accepted (c02_icmp_other_destination_refuted). '
+         'Known finding F16 (not repaired): Builder::build accepts UDP + Paris/Dublin in unprivileged mode, where the sequence is not on the wire (shown through the real non-raw dispatch; c02_unprivileged_udp_carries_no_sequence_refuted). Known finding F15 (not repaired): for ICMP the quoted destination address is not checked - a quoted echo request to another host carrying this tracer\'s identifier is accepted (c02_icmp_other_destination_refuted). '
          'Not covered: IPv4 responses longer than the 1024-octet buffer (a conforming router sends at most 576 octets); the send side itself is C11 (here only the probe-shape lines). The remaining in_round test and slot completion are C03 / C07.',
     technique='Coq proof (layered symbolic evaluation of the receive path on header ++ arbitrary tail; arithmetic by lia; case analysis over probe_data) + differential testing of extracted model vs implementation + model-free oracle through the real strategy functions')
 
